@@ -5,7 +5,7 @@ from typing import List, Optional
 
 from .. import consteval, pipeline, render, sym
 from ..model import AnalysisError, Repo
-from ..report import Run
+from ..report import Run, take_over
 from ..sym import T, const, param
 
 EXPLANATION = (
@@ -196,6 +196,9 @@ def strict_decoder(repo: Repo, run: Run, interp, ks: int) -> None:
 
 
 def check(repo: Repo, run: Run) -> None:
+    take_over(run, "c02", "C02", repo, lambda o: o["rule"] == "R1", "R0", "record framing of a version-2 dump",
+              "a dump cut anywhere must report the records that are whole: framing that depends on anything but the bytes read so "
+              "far (the size of the file, a seek) reports other records for the cut dump than for the complete one", 8)
     interp = sym.Interp(repo)
     mod = repo.module("kd_buf_parser")
     ks = consteval.evaluate(repo, mod, mod.constants.get("KEVENT_SIZE"))
